@@ -261,6 +261,10 @@ def check(ctx):
               step_c, (False, False, False), at_exit_c, instance="_IterableAsyncIterator.__anext__ checkpoints on element and on exhaustion")
     it = ctx.fn("_iterate", ITER)
     s = ctx.sites(it, "return _IterableAsyncIterator(iter($X))")
+    if not s:
+        # single-exit form: the adapter is bound to the variable that the function returns
+        retn = {r.value.id for r in own_walk(it.node) if isinstance(r, ast.Return) and isinstance(r.value, ast.Name)}
+        s = [(st_, e_) for st_, e_ in ctx.sites(it, "$R = _IterableAsyncIterator(iter($X))") if isinstance(e_["R"], ast.Name) and e_["R"].id in retn]
     ctx.ob("R08-c", it, "synchronous iterables are wrapped in the checkpointing adapter", len(s) == 1, detail="" if s else "_iterate does not wrap sync iterables in _IterableAsyncIterator",
            by=("_IterableAsyncIterator(iter(iterable))",))
 
